@@ -270,12 +270,20 @@ bus0_sock_send(void *arg, nni_aio *aio)
 	uint32_t   sender = 0;
 	size_t     len;
 
+	// BUS send is best effort and never blocks, so it cannot time out
+	// either: a zero timeout (non-blocking send) or an expiration time
+	// that has already passed must not fail it.  We still start the aio,
+	// so that a stopped or aborted aio is refused -- and we do that before
+	// we take the message (or trim its header), so that a refused send
+	// leaves the message intact with the caller.
+	nni_aio_set_expire(aio, NNI_TIME_NEVER);
+	if (!nni_aio_start(aio, NULL, NULL)) {
+		return;
+	}
+
 	msg = nni_aio_get_msg(aio);
 	len = nni_msg_len(msg);
 	nni_aio_set_msg(aio, NULL);
-
-	// this test is so that we detect when the aio itself is terminated,
-	// otherwise we could loop forever.
 
 	if (s->raw) {
 		// In raw mode, we look for the message header, to see if it
@@ -290,12 +298,6 @@ bus0_sock_send(void *arg, nni_aio *aio)
 	}
 
 	nni_mtx_lock(&s->mtx);
-
-	if (!nni_aio_start(aio, NULL, NULL)) {
-		nni_mtx_unlock(&s->mtx);
-		return;
-	}
-
 	NNI_LIST_FOREACH (&s->pipes, pipe) {
 
 		if (s->raw && nni_pipe_id(pipe->pipe) == sender) {
